@@ -76,3 +76,41 @@ package vm
 //@   ensures err == nil ==> tx != nil && fresh(tx) && tx.verified && tx.Momentum == detailed.Momentum
 //@   ensures err != nil ==> tx == nil
 //@   modifies detailed.Momentum.*
+
+// ---- C09 / C04 / C01: producing a contract's receive block -------------------------------------------------------------------
+// finalizeEmbedded numbers and hashes the descendant send blocks and wraps them in the receive block; it never fails and it
+// leaves amount, token and recipient of every descendant alone.
+//@ func VM.finalizeEmbedded(vm, fromBlockHash, descendantBlocks, executionError) -> (block, methodErr, internalErr)
+//@   requires vm != nil
+//@   requires forall k int :: 0 <= k && k < len(descendantBlocks) ==> descendantBlocks[k] != nil
+//@   ensures[never-fails] internalErr == nil && methodErr == executionError
+//@   ensures[wraps] block != nil && fresh(block) && block.BlockType == 5 && block.FromBlockHash == fromBlockHash && block.DescendantBlocks.arr == descendantBlocks.arr && block.DescendantBlocks.off == descendantBlocks.off && len(block.DescendantBlocks) == len(descendantBlocks)
+//@   modifies T:chain/nom.AccountBlock.Version, T:chain/nom.AccountBlock.ChainIdentifier, T:chain/nom.AccountBlock.BlockType, T:chain/nom.AccountBlock.Address, T:chain/nom.AccountBlock.MomentumAcknowledged, T:chain/nom.AccountBlock.PreviousHash, T:chain/nom.AccountBlock.Height, T:chain/nom.AccountBlock.ChangesHash, T:chain/nom.AccountBlock.Hash
+
+// rollbackEmbedded: the failed call leaves no trace in the contract's state and the full amount goes back to the sender.
+//@ func VM.rollbackEmbedded(vm, fromBlockHash, methodErr) -> (block, mErr, internalErr)
+//@   requires[vm] vm != nil
+//@   requires[send-exists] sendOf(vm, fromBlockHash) != nil
+//@   requires[amount] sendOf(vm, fromBlockHash).Amount != nil
+//@   requires[non-negative] val(sendOf(vm, fromBlockHash).Amount) >= 0
+//@   requires[snapshot-taken] vm.context.hasSnapshot
+//@   ensures[method-error-is-not-internal] internalErr == nil ==> mErr == methodErr && block != nil && block.BlockType == 5 && block.FromBlockHash == fromBlockHash
+//@   ensures[state-reset] internalErr == nil ==> vm.context.storageVersion == old(vm.context.savedStorage) && vm.context.seqFront == old(vm.context.savedSeqFront) && vm.context.received == old(vm.context.savedReceived)
+//@   ensures[refund-count] internalErr == nil ==> len(block.DescendantBlocks) == ite(old(val(sendOf(vm, fromBlockHash).Amount)) > 0, 1, 0)
+//@   ensures[refund-full-amount-to-sender] internalErr == nil && old(val(sendOf(vm, fromBlockHash).Amount)) > 0 ==> block.DescendantBlocks[0] != nil && val(block.DescendantBlocks[0].Amount) == old(val(sendOf(vm, fromBlockHash).Amount)) && block.DescendantBlocks[0].ToAddress == old(sendOf(vm, fromBlockHash).Address) && block.DescendantBlocks[0].TokenStandard == old(sendOf(vm, fromBlockHash).TokenStandard)
+//@   ensures[balance-restored] internalErr == nil ==> vm.context.balance == old(vm.context.savedBalance)
+//@   modifies vm.context.balance, vm.context.received, vm.context.seqFront, vm.context.chainPlasma, vm.context.storageVersion, T:chain/nom.AccountBlock.Version, T:chain/nom.AccountBlock.ChainIdentifier, T:chain/nom.AccountBlock.BlockType, T:chain/nom.AccountBlock.Address, T:chain/nom.AccountBlock.MomentumAcknowledged, T:chain/nom.AccountBlock.PreviousHash, T:chain/nom.AccountBlock.Height, T:chain/nom.AccountBlock.ChangesHash, T:chain/nom.AccountBlock.Hash
+
+// generateEmbeddedReceive: every accepted call completes or refunds, and the inbox always advances by exactly one.
+//@ func VM.generateEmbeddedReceive(vm, fromBlockHash) -> (block, methodErr, internalErr)
+//@   requires vm != nil && sendOf(vm, fromBlockHash) != nil && sendOf(vm, fromBlockHash).Amount != nil && val(sendOf(vm, fromBlockHash).Amount) >= 0
+//@   ensures[inbox-advances-exactly-once] internalErr == nil ==> vm.context.seqFront == old(vm.context.seqFront) + 1
+//@   ensures[produces-a-receive-block] internalErr == nil ==> block != nil && block.BlockType == 5 && block.FromBlockHash == fromBlockHash
+//@   ensures[failed-call-leaves-no-trace] internalErr == nil && methodErr != nil ==> vm.context.storageVersion == old(vm.context.storageVersion) && vm.context.balance == old(vm.context.balance) && vm.context.received == old(vm.context.received)
+//@   ensures[failed-call-refunds] internalErr == nil && methodErr != nil ==> len(block.DescendantBlocks) == ite(old(val(sendOf(vm, fromBlockHash).Amount)) > 0, 1, 0)
+//@   ensures[refund-full-amount-to-sender] internalErr == nil && methodErr != nil && old(val(sendOf(vm, fromBlockHash).Amount)) > 0 ==> val(block.DescendantBlocks[0].Amount) == old(val(sendOf(vm, fromBlockHash).Amount)) && block.DescendantBlocks[0].ToAddress == old(sendOf(vm, fromBlockHash).Address) && block.DescendantBlocks[0].TokenStandard == old(sendOf(vm, fromBlockHash).TokenStandard)
+//@   loop 1
+//@     invariant forall k int :: 0 <= k && k < len(descendantBlocks) ==> descendantBlocks[k] != nil && descendantBlocks[k].Amount != nil
+//@     invariant vm.context.seqFront == old(vm.context.seqFront) + 1 && vm.context.savedSeqFront == old(vm.context.seqFront) + 1
+//@     invariant vm.context.savedStorage == old(vm.context.storageVersion) && vm.context.savedBalance == old(vm.context.balance) && vm.context.savedReceived == old(vm.context.received)
+//@     invariant sendBlock == sendOf(vm, fromBlockHash) && err == nil
